@@ -426,6 +426,108 @@ example : ValidOps2 (cleanSpec [1, 2, 3] (fun _ => none))
   simp [ValidOps2, ValidOp2, ValidEdit, ValidEditH, CommitOK, cleanSpec, specStep, step, checkpoint, previous, commitStep,
     credit, enum1, enumFrom, initialAuthor, checkpointAttr, lookup, effective]
 
+/-! ### once: a commit never lists a line that HEAD already holds -/
+
+/-- operations other than a commit leave HEAD alone -/
+theorem specStep_head_of_not_commit (sp : Spec) (op : Op) (h : op ≠ .commit) :
+    (specStep sp op).st.head = sp.st.head := by
+  cases op with
+  | commit => exact absurd rfl h
+  | humanEdit ys => rfl
+  | aiEdit s ys =>
+    show (checkpoint { checkpoint sp.st none with work := ys } (some s)).head = _
+    rw [(checkpoint_fields _ _).2.1]
+    exact (checkpoint_fields _ _).2.1
+  | humanCheckpoint => exact (checkpoint_fields _ _).2.1
+  | stageAll => rfl
+  | stage ys => rfl
+
+theorem specRun_head_of_no_commit (sp : Spec) (ops : List Op) (h : Op.commit ∉ ops) :
+    (specRun sp ops).st.head = sp.st.head := by
+  induction ops generalizing sp with
+  | nil => rfl
+  | cons op ops ih =>
+    have h1 : op ≠ .commit := fun e => h (by simp [e])
+    have h2 : Op.commit ∉ ops := fun e => h (by simp [e])
+    show (specRun (specStep sp op) ops).st.head = _
+    rw [ih _ h2, specStep_head_of_not_commit sp op h1]
+
+/-- a commit makes the staged version the new HEAD -/
+theorem specStep_commit_head (sp : Spec) : (specStep sp .commit).st.head = sp.st.index := by
+  show (commitStep sp.st).head = sp.st.index
+  simp only [commitStep]
+  exact (checkpoint_fields _ _).2.2.2.1
+
+/-- a position of a file holds one line -/
+theorem enumFrom_functional {α} (k : Nat) (l : List α) (j : Nat) (a b : α)
+    (ha : (j, a) ∈ enumFrom k l) (hb : (j, b) ∈ enumFrom k l) : a = b := by
+  induction l generalizing k with
+  | nil => simp [enumFrom] at ha
+  | cons x xs ih =>
+    simp only [enumFrom, List.mem_cons, Prod.mk.injEq] at ha hb
+    rcases ha with ⟨rfl, rfl⟩ | ha <;> rcases hb with ⟨h1, rfl⟩ | hb
+    · rfl
+    · have := (mem_enumFrom' (j + 1) xs j b hb).2; omega
+    · have := (mem_enumFrom' (k + 1) xs j a ha).2; omega
+    · exact ih (k + 1) ha hb
+
+theorem enum1_functional {α} (l : List α) (j : Nat) (a b : α) (ha : (j, a) ∈ enum1 l) (hb : (j, b) ∈ enum1 l) :
+    a = b := enumFrom_functional 1 l j a b ha hb
+
+/-- **a commit lists only lines it adds (C04 "once", general form).** In every valid history, the note
+    written by any commit names no line that HEAD already holds at that moment — whatever happened to
+    that line before (listed by an earlier commit's note, committed as a person's line, pending in
+    between). -/
+theorem head_line_not_listed (h0 : List Nat) (g0 : Nat → Author) (hnd : h0.Nodup)
+    (pre post : List Op) (hv : ValidOps2 (cleanSpec h0 g0) (pre ++ .commit :: post)) (y : Nat) :
+    let sp := specRun (cleanSpec h0 g0) pre
+    y ∈ sp.st.head →
+    ∀ note, (step sp.st .commit).notes.head? = some note →
+      ∀ j s, (j, s) ∈ note → ∀ z, (j, z) ∈ enum1 sp.st.index → z ≠ y := by
+  intro sp hy note hn j s hm z hz he
+  subst he
+  rw [every_commit_exact h0 g0 hnd pre post hv] at hn
+  cases hn
+  obtain ⟨y', hm', hnh, _, _⟩ := mem_expectedPartialNote sp j s hm
+  have := enum1_functional sp.st.index j z y' hz hm'
+  subst this
+  exact hnh hy
+
+/-- **no AI-written line is recorded for more than one commit (C04 "once").** In every valid history,
+    a line that is part of one commit (listed by its note or not) is not listed by the note of the next
+    commit, whatever is edited, checkpointed and staged in between (`mid`: any operations but a commit) —
+    so with `pending_line_carried` a pending AI line is listed by exactly the first commit that contains it. -/
+theorem recorded_once (h0 : List Nat) (g0 : Nat → Author) (hnd : h0.Nodup)
+    (pre mid post : List Op)
+    (hv : ValidOps2 (cleanSpec h0 g0) (pre ++ .commit :: (mid ++ .commit :: post)))
+    (hmid : Op.commit ∉ mid) (i y : Nat) :
+    let sp1 := specRun (cleanSpec h0 g0) pre
+    let sp2 := specRun (cleanSpec h0 g0) (pre ++ .commit :: mid)
+    (i, y) ∈ enum1 sp1.st.index →
+    ∀ note, (step sp2.st .commit).notes.head? = some note →
+      ∀ j s, (j, s) ∈ note → ∀ z, (j, z) ∈ enum1 sp2.st.index → z ≠ y := by
+  intro sp1 sp2 hiy
+  have hrun : sp2 = specRun (specStep sp1 .commit) mid := by
+    simp [sp2, sp1, specRun, List.foldl_append]
+  have hhead : y ∈ sp2.st.head := by
+    rw [hrun, specRun_head_of_no_commit _ mid hmid, specStep_commit_head]
+    exact (mem_enumFrom' 1 _ i y hiy).1
+  have hv' : ValidOps2 (cleanSpec h0 g0) ((pre ++ .commit :: mid) ++ .commit :: post) := by
+    simpa using hv
+  exact head_line_not_listed h0 g0 hnd (pre ++ .commit :: mid) post hv' y hhead
+
+/-- non-vacuity of `recorded_once` (and `pending_line_carried`): session 7's line `10` (id) is listed by
+    the commit that takes it (line 3), line `11` stays pending and is listed by the next commit only
+    (line 4); the first commit's line is not listed again. -/
+example : (run { head := [1, 2, 3], index := [1, 2, 3], work := [1, 2, 3] }
+    [.aiEdit 7 [1, 2, 10, 11, 3], .stage [1, 2, 10, 3], .commit, .humanCheckpoint, .stageAll, .commit]).notes
+    = [[(4, 7)], [(3, 7)]] := by decide
+
+example : ValidOps2 (cleanSpec [1, 2, 3] (fun _ => none))
+    [.aiEdit 7 [1, 2, 10, 11, 3], .stage [1, 2, 10, 3], .commit, .humanCheckpoint, .stageAll, .commit] := by
+  simp [ValidOps2, ValidOp2, ValidEdit, ValidEditH, CommitOK, cleanSpec, specStep, step, checkpoint, previous, commitStep,
+    credit, enum1, enumFrom, initialAuthor, checkpointAttr, lookup, effective]
+
 end GitAi.Sys
 
 #print axioms GitAi.Split3.classify_spec
@@ -439,4 +541,6 @@ end GitAi.Sys
 #print axioms GitAi.Split3.split_outputs_wf
 #print axioms GitAi.Sys.every_commit_exact
 #print axioms GitAi.Sys.pending_line_carried
+#print axioms GitAi.Sys.head_line_not_listed
+#print axioms GitAi.Sys.recorded_once
 #print axioms GitAi.Sys.regression_pending_edited_before_checkpoint
